@@ -443,6 +443,10 @@ def cbmc_job(u, sp, job, workdir, tier):
             o["trace_tail"] = trace_tail(r["trace"])
             o["prestate"] = trace_prestate(r["trace"])
         res["obligations"].append(o)
+    errs = [o for o in res["obligations"] if o["status"] not in ("SUCCESS", "FAILURE")]
+    if errs:
+        res["reason"] = "back end returned status %s for %d obligations (solver error / resource limit), e.g. %s" % (errs[0]["status"], len(errs), errs[0]["id"])
+        return res
     nobody = [o for o in res["obligations"] if ".no-body." in o["id"]]
     if nobody:
         res["reason"] = "lowered code calls a function without body or contract: " + "; ".join(o["description"] for o in nobody[:5])
